@@ -954,6 +954,10 @@ class Intrinsics:
         caller, its postcondition an assumption.  The lemma itself is verified separately (it is a contract).
         """
         ex = self.ex
+        if getattr(P, 'hints_off', 0):
+            # c02x: inside the postcondition of a callee at a modular call site the lemma is a proof hint of the
+            # callee's own proof (like case_split): nothing is obliged and nothing extra is assumed
+            return True
         c = ex.contracts.get(name)
         if c is None or c.kind != 'lemma':
             raise InterpError(f'apply_lemma: no lemma named {name}')
